@@ -86,6 +86,7 @@ fn main() {
         "C13" => mon::c13::run(&p, mon::c13::Which::C13),
         "C02" => mon::c13::run(&p, mon::c13::Which::C02),
         "C15" => mon::c15::run(&p),
+        "C17" => mon::c17::run(&p),
         "C18" => mon::c18::run(&p),
         _ => {
             eprintln!("unknown property {}", prop);
